@@ -412,6 +412,7 @@ func cmdSQLiAPI(args []string) int {
 			return apiResult{Sqli: ok, Fp: b2i(fp)}
 		}()
 		fmt.Fprintf(w, "{\"sqli\":%v,\"fp\":%q,\"panic\":%q}\n", r.Sqli, i2b(r.Fp), r.Panic)
+		endRec(w)
 	}
 	return 0
 }
